@@ -1,5 +1,6 @@
 """C03 Streams are portable across target languages (C++, Python) and formats (binary, NDJSON)."""
 import build, shapes, roundtrip, rtengine
+from am import N, P
 from evidence import Check
 
 RULE = ("C01/C02 packages generated for C++ and Python; every execution is reference-encoded and pushed through paths of hops "
@@ -82,6 +83,7 @@ def main(tier):
     packed.append((shapes.bigschema_package(), []))
     packed.append((shapes.varint_package(), []))
     packed += shapes.pack(py_only_shapes(), PY_ONLY)
+    packed += shapes.pack([N("GK", P("string")), N("GK", P("int32")), N("GK", P("uint8"))], "Gkm")
     chk.extra.update({"shapes": len(sh), "depth": d, "k": 1 if tier == "quick" else 2})
     roundtrip.run_packages(chk, packed, worker)
     chk.assumptions += ["MATLAB generated code cannot be executed here (its serialization plan is compared statically under C14)",
